@@ -462,12 +462,16 @@ impl BuildJob<'_> {
             None,
         );
         let state = ptx.commit().map_err(RedoError::opaque_error)?;
+        let lock_id = self.lock.file_id();
         let job = server.start(self.t.into_string(), || {
             env::set_var(ENV_DEPTH, {
                 let mut depth = state.env().depth().to_string();
                 depth.push_str("  ");
                 depth
             });
+            // We keep holding the target's lock while redo-unlocked runs, so
+            // anything below it that comes back to this target is a cycle.
+            cycles::add(lock_id.to_string());
             if unsafe { signal::signal(Signal::SIGPIPE, SigHandler::SigDfl) }.is_err() {
                 return EXIT_FAILURE;
             }
